@@ -79,6 +79,57 @@ pub fn verify_next(
     }
 }
 
+/// Like verify_next but judging only by membership in the candidate set (pattern matches, lookahead
+/// condition holds) at the first position that has candidates - immune to defects in the *choice*
+/// among candidates (C01/C05), sensitive to skipped, shifted or invented tokens.
+pub fn verify_next_candidate(
+    model: &Model,
+    mode: usize,
+    text: &Text,
+    pos: usize,
+    observed: Option<Tok>,
+    kind: &str,
+) -> Result<usize, Failure> {
+    let n = text.len();
+    let mut p = pos;
+    let mut found = None;
+    while p < n {
+        let (cands, _) = model.candidates(mode, &text.chars, p);
+        if !cands.is_empty() {
+            found = Some(cands);
+            break;
+        }
+        p += 1;
+    }
+    match (found, observed) {
+        (None, None) => Ok(n),
+        (None, Some(t)) => Err(Failure::new(
+            kind,
+            format!("a token was returned although no pattern of mode {} matches anywhere from byte {} on", mode, text.offs[pos.min(n)]),
+        )
+        .exp_obs("None", t)),
+        (Some(c), None) => Err(Failure::new(
+            kind,
+            format!("None returned although a pattern of mode {} matches at byte {}", mode, text.offs[p]),
+        )
+        .exp_obs(&c, "None")),
+        (Some(c), Some(t)) => {
+            if t.start == text.offs[p] && c.iter().any(|x| x.tt == t.tt && text.offs[x.end] == t.end) {
+                Ok(text.char_index(t.end).unwrap())
+            } else {
+                Err(Failure::new(
+                    kind,
+                    format!(
+                        "the token returned for a scan from byte {} in mode {} is not a match starting at byte {} (the first position where a pattern matches)",
+                        text.offs[pos.min(n)], mode, text.offs[p]
+                    ),
+                )
+                .exp_obs(&c, t))
+            }
+        }
+    }
+}
+
 fn peek_parts(pr: PeekResult) -> (Vec<Tok>, &'static str, Option<usize>) {
     match pr {
         PeekResult::Matches(v) => (v.iter().map(Tok::of).collect(), "Matches", None),
@@ -126,7 +177,7 @@ impl Check for C10 {
         "C10"
     }
     fn rule(&self) -> &'static str {
-        "case = mode graph (1-4 modes, lookaheads) x input x history of next | peek_n | set_mode | set_offset(o) | fresh iterator with_offset(o) (o = any character boundary, 0, len, beyond len) | peek_n(n) + advance_to(end of k-th peeked match) [+ set_mode(target) if the skipped prefix contains the mode-switching token]; oracles = (a) metamorphic: after a reset to o in mode m all further observations equal those of a twin iterator over the suffix string input[o..] in mode m driven by the same calls, spans shifted by o; (b) after advance_to the twin instead calls next() k+1 times and both must continue identically; non-trivial = a reset to an offset > 0 after >= 1 consumed token, or an advance_to on an iterator whose offset base is non-zero"
+        "case = mode graph (1-4 modes, lookaheads) x input x history of next | peek_n | set_mode | set_offset(o) | fresh iterator with_offset(o) (o = any character boundary, 0, len, beyond len) | peek_n(n) + advance_to(end of k-th peeked match) [+ set_mode(target) if the skipped prefix contains the mode-switching token]; oracles = (a) metamorphic: after a reset to o in mode m all further observations equal those of a twin iterator over the suffix string input[o..] in mode m driven by the same calls, spans shifted by o; (b) every next() must return a match of a pattern of the current mode starting at the first position from the model position where any pattern matches (membership in the reference candidate set, not the choice among candidates - so that a behaviour shared by resets and fresh scans, e.g. special treatment of the first character, cannot hide); (c) after advance_to the twin instead calls next() k+1 times and both must continue identically; non-trivial = a reset to an offset > 0 after >= 1 consumed token, or an advance_to on an iterator whose offset base is non-zero"
     }
     fn cases(&self, thorough: bool) -> usize {
         if thorough {
@@ -199,6 +250,7 @@ impl Check for C10 {
             let mut twin = scanner.find_iter(input);
             let mut mode = 0usize;
             let mut consumed = 0usize;
+            let mut pos = 0usize; // model position (character index)
             for (step, op) in case.ops.iter().enumerate() {
                 match op {
                     Op::Next => {
@@ -211,6 +263,7 @@ impl Check for C10 {
                             )
                             .exp_obs(b, a));
                         }
+                        pos = verify_next_candidate(&model, mode, &text, pos, a, "c10.position")?;
                         if let Some(t) = a {
                             consumed += 1;
                             if let Some(m2) = model.transition(mode, t.tt) {
@@ -247,6 +300,7 @@ impl Check for C10 {
                         }
                         let oo = (*o).min(len);
                         base = oo;
+                        pos = text.char_index(oo).unwrap();
                         twin = scanner.find_iter(&input[oo..]);
                         twin.set_mode(mode);
                         st.flag("reset_beyond_end", *o > len);
@@ -289,6 +343,7 @@ impl Check for C10 {
                                 }
                             }
                             consumed += k + 1;
+                            pos = text.char_index(target.end).unwrap_or(pos);
                             let (gm, tm) = (it.current_mode(), twin.current_mode());
                             if gm != tm {
                                 return Err(Failure::new(
@@ -313,6 +368,7 @@ impl Check for C10 {
                     )
                     .exp_obs(b, a));
                 }
+                pos = verify_next_candidate(&model, mode, &text, pos, a, "c10.position")?;
                 match a {
                     Some(t) => {
                         if let Some(m2) = model.transition(mode, t.tt) {
